@@ -310,7 +310,18 @@ Definition chk_C08_step (before : list obs_alloc) (o : ostep) : bool :=
 Definition chk_C08_bij (c : rcase) : bool := all_steps chk_C08_step [] (rc_steps c).
 (* "repeating an existing binding succeeds and refreshes it": a binding exists exactly until one channel timeout after the
    last successful ChannelBind for it - the channel half of the C07 specification, recomputed from the responses alone *)
-Definition chk_C08 (c : rcase) : bool := chk_C08_bij c && chk_C07 c.
+(* emission: ChannelData toward the client carries a number that is bound, in the state before the datagram arrived, to
+   exactly the peer the datagram came from (never a stale, foreign or out-of-range number) *)
+Definition chk_C08_emit_step (before : list obs_alloc) (o : ostep) : bool :=
+  match os_ev o with
+  | EPeer relay from _ =>
+      forallb (fun a => match a with
+                        | ChanDataOut _ n _ => match find_orelay relay before with Some al => has_chan n from al | None => false end
+                        | _ => true end) (os_acts o)
+  | _ => forallb (fun a => match a with ChanDataOut _ _ _ => false | _ => true end) (os_acts o)
+  end.
+Definition chk_C08_emit (c : rcase) : bool := all_steps chk_C08_emit_step [] (rc_steps c).
+Definition chk_C08 (c : rcase) : bool := chk_C08_bij c && chk_C07 c && chk_C08_emit c.
 
 (* ---------- C15: lifecycle callbacks balance against what exists ---------- *)
 Definition count_life (f : lifecycle -> bool) (acts : list action) : Z :=
